@@ -278,7 +278,7 @@ func (c *ctl) releaseLocked(p *pend, scripted string) {
 
 const (
 	settleWindow = 1500 * time.Microsecond
-	stallLimit   = 20 * time.Second
+	stallLimit   = 8 * time.Second
 )
 
 // waitChange blocks until something happens at the gate or the copy returns; it reports false
@@ -388,8 +388,9 @@ func (c *ctl) control(done <-chan struct{}) (stalled bool) {
 			idle = 0
 			continue
 		}
+		stalledOnly := len(live) == 0 && len(c.pending) > 0
 		c.mu.Unlock()
-		if needSettle {
+		if needSettle || stalledOnly {
 			if c.settle(done) {
 				return false
 			}
@@ -397,9 +398,10 @@ func (c *ctl) control(done <-chan struct{}) (stalled bool) {
 			live = c.livePending()
 			if len(live) > 0 {
 				idle = 0
-				if mode == "random" {
+				switch {
+				case mode == "random":
 					c.releaseLocked(live[c.rng.Intn(len(live))], "")
-				} else {
+				case mode == "script" && c.scriptAt < len(script):
 					// the request the script waits for is not coming: drift
 					if c.drift == "" {
 						st := script[c.scriptAt]
@@ -410,15 +412,13 @@ func (c *ctl) control(done <-chan struct{}) (stalled bool) {
 				c.mu.Unlock()
 				continue
 			}
-			stalledOnly := len(c.pending) > 0
-			c.mu.Unlock()
-			if stalledOnly {
+			if len(c.pending) > 0 && !c.cancelled {
 				// only stalled requests are left: the caller gives up (timeout = cancellation)
-				c.mu.Lock()
 				c.doCancelLocked(nil)
 				c.mu.Unlock()
 				continue
 			}
+			c.mu.Unlock()
 		}
 		// nothing pending: the copy is computing, doing file I/O or sleeping in a back-off
 		ch, fin := c.waitChange(done, 50*time.Millisecond)
